@@ -247,7 +247,9 @@ def run_check(cid, tier, only=None, verbose=True):
                 sig = f'{it.name}:{mdl["label"]}'
                 hit = [k for k in known if k[0] == cid and k[1] == sig]
                 os.makedirs(os.path.join(ROOT, 'replays'), exist_ok=True)
-                rp = os.path.join(ROOT, 'replays', f'{cid}-{it.name.replace("/", "_")}-{mdl["label"].replace("/", "_")}.json')
+                import re
+                safe = re.sub(r'[^A-Za-z0-9_.,=#\[\]()<>-]+', '_', f'{it.name}-{mdl["label"]}')[:140]
+                rp = os.path.join(ROOT, 'replays', f'{cid}-{safe}.json')
                 json.dump(dict(property=cid, tier=tier, instance=it.name, index=j.idx, label=mdl['label'],
                                values=mdl['values'], symbolic_observed=mdl.get('observed'),
                                replay=dict(failures=rr.get('failures'), status=rr.get('status'), error=rr.get('error'),
